@@ -36,6 +36,10 @@ def scandir_setup(b):
 
     def scandir(interp, st, args, kwargs):
         d = sym.lift(args[0], ENTRY)
+        # the directory cannot be listed (EACCES, EIO, vanished ...)
+        bad = st.copy()
+        bad.emit('scandir_refused', dir=d)
+        yield bad, Raised(Exc('PermissionError'))
         st.emit('scandir', dir=d)
         n = n_entries(d.z)
         st.assume(n >= 0)
@@ -62,6 +66,12 @@ def scandir_post(prop):
             it = evs[start:]
             pops = [e for e in it if e.kind == 'list_pop']
             scans = [e for e in it if e.kind == 'scandir']
+            refused = [e for e in it if e.kind == 'scandir_refused']
+            if refused:
+                # a directory that cannot be listed ends the walk with that error: the result is the whole tree or a failure, never a
+                # silently incomplete listing (delete and clean decide what is unreferenced from the listing of snapshots/)
+                res.oblige(p, f'{prop}.scandir.unlistable_directory_is_an_error', z3.BoolVal(p.kind == 'raise'))
+                continue
             ok = len(pops) == 1 and len(scans) == 1
             res.oblige(p, f'{prop}.scandir.popped_directory_is_listed', z3.BoolVal(ok) if not ok else
                        sym.lift(scans[0].data['dir'], ENTRY).z == sym.lift(pops[0].data['value'], ENTRY).z)
